@@ -120,3 +120,12 @@ def capture(fn, *args, **kwargs):
 
 def same_kind(a, b):
     return a.kind == b.kind
+
+
+F5_CYCLE = "F5:type-order-cycle-between-hook-owning-types"
+
+
+def is_f5_cycle(out):
+    """graphlib.CycleError leaking from the per-argument type sort: a consequence of the recorded finding F5
+    (type order not mirror-consistent between two hook-owning types); whether it strikes depends on set order"""
+    return out is not None and out.kind == "other" and "CycleError" in (out.detail or "")
